@@ -174,6 +174,9 @@ def _decode_each(code, v, want_all=True):
 
 
 # ------------------------------------------------------------------ C02
+_POISON = None
+
+
 def _get_code(args, v):
     """compiled program; optionally re-serialized by R-ASM (denser prefix / table shapes than
     compilers emit) or the encoding of a hand-built CodeData (denser jump graphs)"""
@@ -194,10 +197,19 @@ def _get_code(args, v):
         # injected fault: a decode that raises half-way (a code object whose constant / name tables
         # were emptied) must leave nothing behind that changes the next decode
         from ops_const import code_replace
-        for kw in ({"co_consts": code.co_consts[:-1]}, {"co_names": code.co_names[:-1]}, {"co_consts": ()},
-                   {"co_varnames": (), "co_nlocals": 0}):
+        # (a) the case's own code object, broken early and late; (b) a DIFFERENT code object with jumps to
+        # many offsets, broken so that it fails at its last constant load (after its jumps were decoded):
+        # whatever that decode leaves behind has other offsets than the case's own jumps
+        global _POISON
+        if _POISON is None:
+            src = "while a:\n    if b:\n        c\n    elif d:\n        e = [i for i in f if i]\n    else:\n        g\n    try:\n        h\n    except E:\n        pass\nk = 'last'\n"
+            pc = compile(src, "<poison>", "exec")
+            _POISON = [code_replace(pc, co_consts=pc.co_consts[:-1]), code_replace(pc, co_names=pc.co_names[:-1])]
+        broken = [code_replace(code, **kw) for kw in ({"co_varnames": (), "co_nlocals": 0}, {"co_names": code.co_names[:-1]},
+                                                      {"co_consts": code.co_consts[:-1]})]
+        for bad in broken + _POISON[args.get("poison_pick", 0) % 2:][:1]:
             try:
-                lib().CodeData.from_code(code_replace(code, **kw))
+                lib().CodeData.from_code(bad)
             except Exception:
                 v.features["poison_decode_raised"] += 1
             else:
